@@ -26,6 +26,8 @@ def run(ctx):
                 opts = {"max_units": 6, "min_units": 3}
             if k % 2:
                 opts.update({"dup_attrs": 0.15, "implicit_consts": 0.5, "cu_imports": 0.3})
+            if k % 3 == 2:
+                opts["type_units"] = 0.4           # DWARF 5 type units: roots that are neither compile nor partial units
             desc, path = fs.make(rng, **opts)
             want = dwcorr.oracle_raw(desc)
             recs, crashes = fs.query(path, [dwcorr.RAW_QUERY, "raw unit offset value", "raw unit root offset value",
